@@ -233,6 +233,9 @@ def run_row(ctx, name, row, rs, idx, new_data=True):
         ctx.count("fit_ok_and_coherent")
         if idx % 5 == 0:
             ctx.count("fit_predict_checked")
+        if idx % 4 == 1:
+            X2 = refit(ctx, name, row, rs, info, model, X, y)
+            return None if X2 is None else (model, X2)     # the object now describes the second data set
         return model, X
     fclass = failure_class(st, r)
     small = shrink(info, fclass)
@@ -253,6 +256,36 @@ def run_row(ctx, name, row, rs, idx, new_data=True):
             ctx.violation(f"{small['estimator']}: {msg}", check, small, expected=exp, actual=act,
                           key=f"{check}:{key_of(small)}", how=HOW)
     return None
+
+
+def refit(ctx, name, row, rs, info, model, X, y):
+    """the SAME estimator object fitted a second time on other data (same or larger sample count): the second fit must
+    give a coherent model of the NEW data (labels of the new length, predict = arg-max = labels_, score = GEMINI of the new
+    predictions), whatever the first fit left on the object"""
+    X = np.asarray(X, float)
+    n2 = len(X) if rs.rand() < 0.5 else len(X) + int(rs.randint(1, 3))
+    X2 = sl.make_data(rs, n2, X.shape[1], nonneg=bool(np.min(X) >= 0))
+    y2 = sl.precomputed_for(row, X2) if y is not None else None
+    info2 = dict(info, X=np.asarray(X2).tolist(), y=None if y2 is None else np.asarray(y2).tolist())
+    try:
+        with sl.time_limit(FIT_SECONDS):
+            if name == "Kauri":
+                with sl.kauri_translit():
+                    model.fit(X2, y2)
+            else:
+                model.fit(X2, y2)
+            bad = coherence_kauri(model, info2, X2) if name == "Kauri" else coherence(model, info2, X2, y2)
+    except Exception as e:
+        if sl.classify(e):
+            ctx.count("refit_rejected_by_" + sl.classify(e))
+            return None
+        bad = [("refit-raises", f"{type(e).__name__}: {str(e)[:200]} at {sl.where(e)} when the fitted estimator is fitted again on other data", None, None)]
+    ctx.count("refit_checked")
+    for check, msg, exp, act in bad:
+        ctx.violation(f"{name}, second fit of the same object on other data: {msg}", check, {**info2, "first_fit_X": X.tolist()},
+                      expected=exp, actual=act, key=f"refit:{check}:{name}",
+                      how="m = harness.sweep_lib.rebuild(info)[0]; m.fit(first_fit_X); m.fit(X); harness.props.c04.coherence(m, info, X, y)")
+    return None if bad else np.asarray(X2, float)
 
 
 # ------------------------------------------------------------------ correspondence with the Lean API model
